@@ -57,9 +57,20 @@ ProgName(s) ==
 
 Split(s) == <<ProgName(s)>> \o Args(s, ProgEnd(s), FALSE, <<>>, FALSE, <<>>)
 
+\* the strings given to the library are UTF-8, what CreateProcessW receives is UTF-16: a two-byte sequence (110xxxxx 10xxxxxx)
+\* is ONE unit there (the enumerations use one- and two-byte sequences only)
+RECURSIVE Dec(_)
+Dec(s) == IF s = <<>> THEN <<>>
+          ELSE IF Len(s) >= 2 /\ s[1] >= 194 /\ s[1] <= 223 /\ s[2] >= 128 /\ s[2] <= 191
+                 THEN <<(s[1] - 192) * 64 + (s[2] - 128)>> \o Dec(SubSeq(s, 3, Len(s)))
+                 ELSE <<s[1]>> \o Dec(Tail(s))
+\* length in UTF-8 bytes of a string of UTF-16 units below 0x800 (the command line is joined in UTF-8, then converted)
+RECURSIVE Len8(_)
+Len8(s) == IF s = <<>> THEN 0 ELSE (IF s[1] >= 128 THEN 2 ELSE 1) + Len8(Tail(s))
+DecAll(ss) == [i \in 1..Len(ss) |-> Dec(ss[i])]
 RECURSIVE Block(_)
 Block(entries) == IF entries = <<>> THEN <<>> ELSE Head(entries) \o <<0>> \o Block(Tail(entries))
-ExpBlock(rec) == Block((IF rec.envb = 0 THEN rec.penv ELSE <<>>) \o rec.envx) \o <<0>>
+ExpBlock(rec) == Block((IF rec.envb = 0 THEN rec.penv ELSE <<>>) \o DecAll(rec.envx)) \o <<0>>
 
 \* rec.fault: 0 = none; k in 1..99 = the k-th allocation of the start fails; 100 = an argument / entry that cannot be converted
 Clauses(rec) ==
@@ -67,8 +78,8 @@ Clauses(rec) ==
   (IF rec.fault # 0 /\ rec.r # 1 /\ rec.created # 0 THEN {"process-created-although-start-failed"} ELSE {}) \cup
   (IF rec.fault # 0 /\ rec.r = 1 /\ rec.created # 1 THEN {"success-without-a-process"} ELSE {}) \cup
   (IF rec.fault = 100 /\ rec.r = 1 THEN {"unconvertible-input-accepted"} ELSE {}) \cup
-  (IF rec.r = 1 /\ Split(rec.cmd) # rec.argv THEN {"split-differs-from-argv"} ELSE {}) \cup
-  (IF rec.r = 1 /\ rec.alloc # Len(rec.cmd) + 1 THEN {"command-line-buffer-not-exact"} ELSE {}) \cup
+  (IF rec.r = 1 /\ Split(rec.cmd) # DecAll(rec.argv) THEN {"split-differs-from-argv"} ELSE {}) \cup
+  (IF rec.r = 1 /\ rec.alloc # Len8(rec.cmd) + 1 THEN {"command-line-buffer-not-exact"} ELSE {}) \cup
   (IF rec.r = 1 /\ rec.block # ExpBlock(rec) THEN {"environment-block-wrong"} ELSE {})
 
 VARIABLES l, bad
